@@ -1061,7 +1061,7 @@ fn run_children(seed: u64, tier: Tier, root: &Path, todo: &BTreeSet<usize>) -> B
         spawns += 1;
         let mut child = Command::new("sh")
             .arg("-c")
-            .arg(format!("ulimit -v {CHILD_AS_LIMIT_KIB}; exec \"$0\" child c11 final \"$1\" \"$2\" \"$3\" \"$4\""))
+            .arg(format!("ulimit -v {CHILD_AS_LIMIT_KIB} && exec \"$0\" child c11 final \"$1\" \"$2\" \"$3\" \"$4\""))
             .arg(&exe)
             .arg(seed.to_string())
             .arg(tier_s)
